@@ -1,10 +1,13 @@
 import Qats.Prelude
 import Qats.Model.Filter
 import Qats.Driver.Pipeline
+import Qats.Gen.Formulas
 /-!
 Line-protocol handlers for the filter model (`Float`: numbers are IEEE bit patterns; `Rat`: `num/den`):
 
 * `flt.design <lp|hp|bp|bs> <dt> <f…>`           → `ok <order> <btype> <routine> <Wn…>`   | `err value` (wrong arity)
+* `flt.srcwn  <lp|hp|bp|bs> <dt> <f…>`           → `ok <Wn…>`: the normalised cut-offs by the expressions REGENERATED from
+      `qats/signal.py` (`Qats.Gen.flt_*`, second argument of `butter`), which `design_wn_is_source` proves equal to `design`'s
 * `flt.resp   <lp|hp|bp|bs> <dt> <f> <fc…>`      → `ok <responseOf (design …) dt f>`
 * `flt.gain   <lp|hp|bp|bs> <n> <dt> <f> <fc…>`  → `ok <gain n dt spec f>` (the Hz reading, any order)
 * `flt.steady <lp|hp|bp|bs> <dt> <mean> <fc…> | <A f φ>…` → `ok <mean'> <A' f' φ'>…`
@@ -125,6 +128,18 @@ def handleNum : List String → Option String
     | some s =>
       let d := design s dt
       some s!"ok {d.order} {d.btype.tag} {d.routine.tag} {joinWith " " (d.wn.map showFloatBits)}"
+  | "flt.srcwn" :: k :: dt :: fs => do
+    let k ← parseKind? k
+    let dt ← parseFloatBits? dt
+    let fs ← parseFloats? fs
+    match mkSpec k fs with
+    | none => some "err value"
+    | some (.lp fc) => some s!"ok {showFloatBits (Qats.Gen.flt_lp_wn dt fc)}"
+    | some (.hp fc) => some s!"ok {showFloatBits (Qats.Gen.flt_hp_wn dt fc)}"
+    | some (.bp f1 f2) =>
+      some s!"ok {showFloatBits (Qats.Gen.flt_bp_wn1 dt f1 f2)} {showFloatBits (Qats.Gen.flt_bp_wn2 dt f1 f2)}"
+    | some (.bs f1 f2) =>
+      some s!"ok {showFloatBits (Qats.Gen.flt_bs_wn1 dt f1 f2)} {showFloatBits (Qats.Gen.flt_bs_wn2 dt f1 f2)}"
   | "flt.resp" :: k :: dt :: f :: fs => do
     let k ← parseKind? k
     let dt ← parseFloatBits? dt
